@@ -1,7 +1,7 @@
 import SJ.Proofs.RoundTrip
+import SJ.Proofs.RoundTripSer
 import SJ.Proofs.RoundTripWF
 import SJ.Props.C02
-import SJ.Props.C03
 import SJ.Props.C01
 /-!
 # C04 — serialise then deserialise is the identity (the `Value` clause)
@@ -10,8 +10,12 @@ Property theorems only; helper lemmas live in `SJ/Proofs/RoundTrip*.lean`.
 
 The theorems are obtained **by composition**:
 
-1. C03 (`c03_value`, `c03_pretty_layout`): `to_string(v)` / pretty output is one RFC 8259 `value`
-   whose syntax tree is `cstOf (imageOfValue ext v)`;
+1. C03 for the `Value` fragment (`Proofs.RoundTripSer.ser_value`): `to_string(v)` / pretty output is
+   one RFC 8259 `value` whose syntax tree is `cstOf (imageOfValue ext v)` — the tree C03's `c03_value`
+   names; it is re-proved here in a *layout-independent* form (the formatter literals re-extracted
+   from `src/ser.rs` are only required to be their structural character plus JSON whitespace), so
+   that a change of the pretty layout which keeps the output JSON alarms C03 (which pins the layout)
+   but not C04;
 2. C01 completeness (`c01_complete_value`): a derivable text meeting the side conditions is accepted
    by `from_str` / `from_slice` / `from_reader`, with value `canonM cfg t`;
 3. `canonM_image` (`Proofs/RoundTrip.lean`): for a well-formed value, `canonM cfg` of that tree is
@@ -32,7 +36,14 @@ The theorems are obtained **by composition**:
 -/
 namespace SJ.Props.C04
 open SJ SJ.Model.Ser SJ.Model.Machine SJ.Spec.Grammar SJ.Spec.Image SJ.Spec.WF
-open SJ.Proofs.CanonM SJ.Proofs.RoundTrip SJ.Proofs.RoundTripWF SJ.Props.C03 SJ.Props.C01
+open SJ.Proofs.CanonM SJ.Proofs.RoundTrip SJ.Proofs.RoundTripSer SJ.Proofs.RoundTripWF SJ.Props.C01
+
+/-! an instance of the assumptions on the external printers, for the non-vacuity examples: real `itoa`,
+    and a "ryu" that prints every float as `1.5` -/
+def ext0 : Ext := { itoa := Spec.Number.decimal, ryu64 := fun _ => [0x31, 0x2e, 0x35], ryu32 := fun _ => [0x31, 0x2e, 0x35] }
+theorem ext0_ok : ExtOK ext0 :=
+  ⟨fun _ => rfl, fun _ _ => ⟨⟨false, [0x31], [0x2e, 0x35], []⟩, rfl, rfl⟩,
+   fun _ _ => ⟨⟨false, [0x31], [0x2e, 0x35], []⟩, rfl, rfl⟩⟩
 
 /-- the representation invariant of a `Value` in the build `cfg` -/
 def WFValue (cfg : Cfg) (v : JV) : Prop := wfValue (specCfg cfg) v = true
@@ -46,6 +57,27 @@ instance (cfg : Cfg) (ext : Ext) (v : JV) : Decidable (FloatsRoundTrip cfg ext v
 /-- the printer/parser pair returns every finite double (the global form of the hypothesis) -/
 def FloatRoundTrips (cfg : Cfg) (ext : Ext) : Prop :=
   ∀ b : UInt64, finite64 b = true → floatRT (specCfg cfg) ext b = true
+
+/-- step 1 (the `Value` fragment of C03, layout-independently): `to_string(v)` never fails and writes one
+    RFC 8259 `value` whose syntax tree is `cstOf (imageOfValue ext v)`; so does the pretty printer for
+    every indent made of JSON whitespace. (`valueLitsOK`: under `arbitrary_precision` the stored literals
+    are numbers; implied by `WFValue`.) -/
+theorem c04_written_text (ext : Ext) (hext : ExtOK ext) (v : JV) (hl : valueLitsOK v = true) :
+    (∃ bufs, serCompact ext (ofValue v) = .ok bufs ∧ Derives bufs.flatten (cstOf (imageOfValue ext v))) ∧
+    (∀ indent, Ws indent → ∃ bufs, serPretty ext indent (ofValue v) = .ok bufs ∧
+      Derives bufs.flatten (cstOf (imageOfValue ext v))) := by
+  constructor
+  · obtain ⟨r, hr, hd⟩ := ser_value ext hext .compact trivial v FState.init hl
+    exact ⟨r.bufs, by simp [serCompact, hr, Except.map], hd⟩
+  · intro indent hws
+    obtain ⟨r, hr, hd⟩ := ser_value ext hext (.pretty indent) hws v FState.init hl
+    exact ⟨r.bufs, by simp [serPretty, hr, Except.map], hd⟩
+
+/-- `[ {"k":[]} , "\u001a" ]` printed with indent `\t`: brackets, separators and whitespace only where
+    the grammar allows them -/
+example : (serPretty ext0 [0x09] (ofValue (.arr [.obj [([0x6b], .arr [])], .str [0x1a]]))).map List.flatten = .ok
+    [0x5b, 0x0a, 0x09, 0x7b, 0x0a, 0x09, 0x09, 0x22, 0x6b, 0x22, 0x3a, 0x20, 0x5b, 0x5d, 0x0a, 0x09, 0x7d, 0x2c, 0x0a, 0x09,
+     0x22, 0x5c, 0x75, 0x30, 0x30, 0x31, 0x61, 0x22, 0x0a, 0x5d] := rfl
 
 /-- steps 2–4: any spelling of the printed tree (compact or pretty) is read back as `v` -/
 theorem c04_reads_back (cfg : Cfg) (src : Src) (ext : Ext) (hext : ExtOK ext) (v : JV)
@@ -74,9 +106,8 @@ theorem c04_value (cfg : Cfg) (src : Src) (ext : Ext) (hext : ExtOK ext) (v : JV
   have hl : valueLitsOK v = true := by
     simp only [WFValue, wfValue, Bool.and_eq_true] at hwf
     exact valueLitsOK_of_shapeOK _ v hwf.1
-  obtain ⟨⟨bufs, hser, hflat⟩, _, hder, _⟩ := c03_value ext hext v hl
-  exact ⟨bufs, hser, c04_reads_back cfg src ext hext v hwf hfl _ (hflat ▸ hder)⟩
-
+  obtain ⟨r, hr, hd⟩ := ser_value ext hext .compact trivial v FState.init hl
+  exact ⟨r.bufs, by simp [serCompact, hr, Except.map], c04_reads_back cfg src ext hext v hwf hfl _ hd⟩
 
 /-! ### non-vacuity: `{"a":[null,-7,"a\"b\né"],"b":18446744073709551615,"b\u0000":true}` -/
 
@@ -107,13 +138,8 @@ theorem c04_value_pretty (cfg : Cfg) (src : Src) (ext : Ext) (hext : ExtOK ext) 
   have hl : valueLitsOK v = true := by
     simp only [WFValue, wfValue, Bool.and_eq_true] at hwf
     exact valueLitsOK_of_shapeOK _ v hwf.1
-  obtain ⟨_, hpretty, _, _⟩ := c03_value ext hext v hl
-  obtain ⟨bufs, hser, _⟩ := hpretty indent
-  obtain ⟨d, hd, _, hder⟩ := c03_pretty_layout ext hext indent (ofValue v)
-    (Proofs.SerValue.ofValue_wf v hl) bufs hser
-  rw [Proofs.SerValue.image_ofValue] at hd; cases hd
-  exact ⟨bufs, hser, c04_reads_back cfg src ext hext v hwf hfl _ (hder hws).1⟩
-
+  obtain ⟨r, hr, hd⟩ := ser_value ext hext (.pretty indent) hws v FState.init hl
+  exact ⟨r.bufs, by simp [serPretty, hr, Except.map], c04_reads_back cfg src ext hext v hwf hfl _ hd⟩
 
 example : ∃ bufs, serPretty ext0 [0x20, 0x09] (ofValue exV) = .ok bufs ∧
     parseTop ⟨{ po := true }, .str, .value⟩ bufs.flatten = .ok exV :=
